@@ -304,6 +304,8 @@ class Evaluator:
         if k == "cast":
             a = self.eval(e[2], env)
             dst = ty_range(e[4])
+            if is_intlike(e[3]) and not a.empty:
+                a = a.meet(top(e[3]))  # the operand is a value of its static type
             if a.empty or dst is None or not is_intlike(e[3]):
                 return top(e[4])
             if dst[0] <= a.lo and a.hi <= dst[1]:
